@@ -338,7 +338,13 @@ theorem pinv_mintr (S : PSt) (i : Pid) (h : PInv S) : PInv (mintr S i) := by
           · simp [CtlOk, okOut]; omega
         · rw [hc]; trivial
       | unw a b c => simp only []; rw [hc] at hok ⊢; exact hok
-      | rel a b c o => simp only []; rw [hc] at hok ⊢; exact hok
+      | rel a b c o =>
+        rw [hc] at hok
+        simp only []
+        repeat' split
+        all_goals first
+          | (simp only [setCtl_ctl_same, CtlOk]; exact ⟨hok.1, by simp [okOut]⟩)
+          | (rw [hc]; exact hok)
       | fin o => simp only []; rw [hc] at hok ⊢; exact hok
     · rw [e.ctlOther p hp]; exact h.ok p
   · unfold mintr
@@ -393,7 +399,18 @@ theorem pinv_mintr (S : PSt) (i : Pid) (h : PInv S) : PInv (mintr S i) := by
           simpa [owed] using hd
       · exact h.owe
     | unw a b c => exact h.owe
-    | rel a b c o => exact h.owe
+    | rel a b c o =>
+      simp only []
+      repeat' split
+      all_goals first
+        | exact h.owe
+        | (intro p d he
+           have := h.owe p d he
+           by_cases hp : p = i
+           · subst hp
+             rw [hc] at this
+             simpa only [setCtl_ctl_same, setCtl_path, owed] using this
+           · simpa [setCtl_ctl_other _ _ _ _ hp] using this)
     | fin o => exact h.owe
 
 theorem pinv_mrunE (S : PSt) (evs : List MEv) (h : PInv S) : PInv (mrunE S evs) := by
